@@ -262,6 +262,9 @@ RunResult run_qsl(const Program &p, bool trace) {
             sim::Rng r(sim::mix64(p.getu("seed"), op.arg(0) + 9));
             int rm_pct = (int)(op.arg(1) % 101), set_pct = (int)(op.arg(2) % 101), ins_pct = D->kind == K_LIST ? (int)(op.arg(3) % 101) : 0;
             long force_pos = op.arg(4, -1);   // >=0: force a removal at this position (0 first, 1 last, 2 middle)
+            int again_pct = (int)(op.arg(5, 0) % 101);   // queue/stack: chance of another edit right after a removal, before the iterator moves on
+            sim::Rng r2(sim::mix64(p.getu("seed"), op.arg(0) + 177));
+            bool loose = false;
             std::vector<long> start = D->model, visited, removed, replaced, inserted;
             std::vector<long> expect = D->model;   // expected content, edited in place
             size_t n0 = start.size();
@@ -288,12 +291,12 @@ RunResult run_qsl(const Program &p, bool trace) {
                 void *v = D->kind == K_QUEUE ? m_queue_itr_get_data((m_queue_itr_t *)itr) : D->kind == K_STACK ? m_stack_itr_get_data((m_stack_itr_t *)itr) : m_list_itr_get_data((m_list_itr_t *)itr);
                 long id = is_cell(v) ? cell_id(v) : -1;
                 visited.push_back(id);
-                if (!any_insert) {
+                if (!any_insert && !loose) {
                     if (idx >= n0 || id != start[idx]) VIOL("C12", "C12:itr-order", "%s iterator yielded %ld at position %zu, container order is [%s]", kname(), id, idx, seq_str(start).c_str());
                 }
-                int a = (int)r.below(100);
+                int a = loose ? 1000 : (int)r.below(100);
                 bool forced = false;
-                if (force_pos >= 0 && !any_insert) {
+                if (force_pos >= 0 && !any_insert && !loose) {
                     size_t want = force_pos % 3 == 0 ? 0 : force_pos % 3 == 1 ? n0 - 1 : n0 / 2;
                     forced = idx == want;
                 }
@@ -304,6 +307,21 @@ RunResult run_qsl(const Program &p, bool trace) {
                     expect.erase(expect.begin() + epos);
                     note_pos(idx, n0);
                     D->mutations++;
+                    // queue / stack: there is no current element until the iterator moves on. An edit attempted now is either refused (nothing
+                    // changes) or acts on the element the walk yields next - never on anything else, and not at all when nothing is left to visit
+                    if (D->kind != K_LIST && (int)r2.below(100) < again_pct) {
+                        bool do_set = r2.below(2) == 0;
+                        long nv = do_set ? D->next_val++ : 0;
+                        sim::R->ctr.probe(do_set ? "itr_set_right_after_remove" : "itr_remove_right_after_remove");
+                        int rc2 = D->kind == K_QUEUE ? (do_set ? m_queue_itr_set_data((m_queue_itr_t *)itr, cell(nv)) : m_queue_itr_remove((m_queue_itr_t *)itr))
+                                                     : (do_set ? m_stack_itr_set_data((m_stack_itr_t *)itr, cell(nv)) : m_stack_itr_remove((m_stack_itr_t *)itr));
+                        if (rc2 == 0) {
+                            if (epos >= expect.size()) VIOL("C12", "C12:itr-edit-nothing-ok", "%s iterator %s right after removing the last element of the walk returned 0", kname(), do_set ? "set" : "remove");
+                            if (do_set) { replaced.push_back(expect[epos]); expect[epos] = nv; }
+                            else { removed.push_back(expect[epos]); expect.erase(expect.begin() + epos); }
+                            loose = true;   // (what the walk yields after an accepted edit of this kind is not ours to say)
+                        }
+                    }
                     // list: the iterator now stands on the following element; it may be removed right away, without a 'next' in between
                     while (D->kind == K_LIST && idx + 1 < n0 && r.below(100) < 35) {
                         void *v2 = m_list_itr_get_data((m_list_itr_t *)itr);
@@ -354,7 +372,7 @@ RunResult run_qsl(const Program &p, bool trace) {
             }
             sim::tr("qsl_itr", D->kind, (long)visited.size(), (long)removed.size());
             oracle_eval("C12.itr-visit-once");
-            if (!any_insert && !(fired && visited.empty()) && visited.size() != n0)
+            if (!any_insert && !loose && !(fired && visited.empty()) && visited.size() != n0)
                 VIOL("C12", "C12:itr-missed", "%s iterator yielded %zu of %zu elements", kname(), visited.size(), n0);
             if (any_insert) {
                 // elements that were still ahead when the first insert happened are each visited exactly once, whatever was removed meanwhile
@@ -427,7 +445,7 @@ Program gen_qsl(uint64_t seed, bool thorough) {
         case 1: p.add("D", "take"); break;
         case 2: p.add("D", "drop", {(long)r.below(64), (long)r.below(8)}); break;
         case 3: p.add("D", "itr", {(long)r.below(100000), (long)(r.chance(0.6) ? r.below(60) : 0), (long)(r.chance(0.3) ? r.below(40) : 0),
-                                   (long)(r.chance(0.25) ? r.below(30) : 0), r.chance(0.35) ? (long)r.below(3) : -1}); break;
+                                   (long)(r.chance(0.25) ? r.below(30) : 0), r.chance(0.35) ? (long)r.below(3) : -1, (long)(r.chance(0.3) ? r.below(101) : 0)}); break;
         case 4: p.add("D", "find", {(long)r.below(64), (long)r.below(8)}); break;
         case 5: p.add("D", "clear"); break;
         case 6: p.add("D", "free"); break;
